@@ -112,26 +112,6 @@ theorem getCell_setCell (p : Pay) (st : Step) (c ci : Cell) (h : p.getCell st = 
     simp [Pay.setCell, Pay.getCell, hi]
   · simp [Pay.setCell, Pay.getCell, mapGet_mapPut _ _ c ci h]
 
-theorem mem_mapPut (m : List (Str × Cell)) (k : Str) (c d : Cell) (h : d ∈ (mapPut m k c).map (·.2)) :
-    d ∈ m.map (·.2) ∨ d = c := by
-  induction m with
-  | nil => simp [mapPut] at h
-  | cons q t ih =>
-    obtain ⟨k', e⟩ := q
-    simp only [mapPut] at h
-    by_cases hk : (k' == k) = true
-    · simp only [hk, if_true, List.map_cons, List.mem_cons] at h
-      rcases h with h | h
-      · exact Or.inr h
-      · exact Or.inl (by simp [h])
-    · have hk' : (k' == k) = false := by simpa using hk
-      simp only [hk', Bool.false_eq_true, if_false, List.map_cons, List.mem_cons] at h
-      rcases h with h | h
-      · exact Or.inl (by simp [h])
-      · rcases ih h with h2 | h2
-        · exact Or.inl (by simp only [List.map_cons, List.mem_cons]; exact Or.inr h2)
-        · exact Or.inr h2
-
 theorem mem_setCell (p : Pay) (st : Step) (c d : Cell) (h : d ∈ (p.setCell st c).cells) : d ∈ p.cells ∨ d = c := by
   cases p <;> cases st <;> simp only [Pay.setCell, Pay.cells] at h ⊢ <;> try exact Or.inl h
   · rcases List.mem_or_eq_of_mem_set h with h | h
@@ -257,7 +237,7 @@ theorem walk_step (ds : DblSem) (rd : Nat → Cell) {vars : Nat → Cell} (lf : 
     (hsrc : ∀ w ∈ lf.vars, rd w = vars w ∧ w < nslots) :
     ∀ (p : List Step) (h : Heap) (e : Nat → Nat) (g : Nat → Val) (c : Cell), Held h vars e g c → ∀ y,
       updPath p ((lf.eval (fun w => absCell g (vars w))).apply ds) (absCell g c) = some y →
-      ∀ f, liveCount h + p.length + 1 < f →
+      ∀ f, liveCount h + p.length + 2 < f →
       ∃ h' c' g', walkMut f ds rd h c p lf = some (h', c') ∧ CellStep h vars e g c y (p.length + 2) h' c' g' := by
   intro p
   induction p with
